@@ -82,7 +82,7 @@ func TestVerifC09Seq(t *testing.T) {
 		key  string
 		at   int
 	}
-	n := r.N(1500, 40000)
+	n := r.N(1500, 150000)
 	for ci := 0; ci < n; ci++ {
 		rng := r.Rand(ci)
 		capacity := []int{1, 7, 64, 100, 1000, 4096}[rng.Intn(6)]
@@ -256,7 +256,7 @@ func TestVerifC09Conc(t *testing.T) {
 		},
 		DescribeOperation: func(in, out any) string { return fmt.Sprintf("%+v -> %+v", in, out) },
 	}
-	n := r.N(400, 6000)
+	n := r.N(400, 25000)
 	var clock atomic.Int64
 	for ci := 0; ci < n; ci++ {
 		rng := r.Rand(ci)
